@@ -44,6 +44,26 @@ def matrix_cases(rnd, reps):
     return out
 
 
+def inert_cases(tier):
+    """operators on operands inside their documented domain, reached in a region that is NOT taken (false guard, lazy branch not
+    taken, block-API _if not taken): the native program skips the region, so nothing may be raised there"""
+    import matrixcases
+    out = []
+    ops = ["floordiv", "mod", "divmod", "truediv", "lt", "ge", "rshift", "lshift", "pow", "and", "mul"] if tier == "quick" else ALL_OPS
+    ctxs = ["g0", "lazy0", "if0"] if tier == "quick" else ["g0", "lazy0", "if0", "g1g0"]
+    for op in ops:
+        for ka, kb in (("lc", "lc"), ("lc", "int"), ("int", "lc")):
+            x, y = (6, 3)
+            if op in ("pow", "lshift", "rshift"): y = 2
+            for ctx in ctxs:
+                prog, nreg = [], [0]
+                a = matrixcases._operand(prog, nreg, ka, 0, x); b = matrixcases._operand(prog, nreg, kb, 1, y)
+                d = nreg[0]; nreg[0] += 1
+                body, gv = matrixcases._wrap(ctx, [["bin", d, op, a, b]], nreg, d)
+                out.append(dict(cfg=dict(p=progs.BN, n=8, res=2, ign=0), prog=prog + body, ins=[x, y, gv[0], gv[1]], inert=1, matrix="inert:%s:%s:%s:%s" % (op, ka, kb, ctx)))
+    return out
+
+
 def same(tv, iv, p):
     """twin value vs implementation value (values at or beyond the field size can only agree modulo p)"""
     def eqv(a, b): return a == b or (abs(a) >= p and (a - b) % p == 0)
@@ -80,6 +100,11 @@ def stmt_at(prog, pc):
 
 
 def oracle(case, rec, group):
+    if case.get("inert"):
+        if rec["exn"] in ("AssertionError", "ValueError", "ZeroDivisionError"):      # data-dependent errors; a TypeError is the program's own
+            return [dict(op=case["matrix"].split(":")[1], key="raised-in-region-not-taken:" + case["matrix"].split(":")[1],
+                         what="an operator on in-domain operands raised %s inside a region that is not taken (the native program skips it)" % rec["exn"], msg=rec["msg"])]
+        return []
     outs, raised, tw, dom_at = twin.run_twin(case)
     t = dict(outs)
     for pc_, v_ in outs:
@@ -131,7 +156,7 @@ def oracle(case, rec, group):
 def run(tier, seed):
     import random
     import matrixcases
-    pending = matrix_cases(random.Random(seed * 7919 + 5), 6 if tier == "quick" else 30) + matrixcases.bigdiv_cases()
+    pending = matrix_cases(random.Random(seed * 7919 + 5), 6 if tier == "quick" else 30) + matrixcases.bigdiv_cases() + inert_cases(tier)
     gen = [None]
     def casegen(rnd):
         if pending: return pending.pop()
